@@ -53,6 +53,61 @@ def c_programs(ctx, n, nvec, seeds=None):
     return out
 
 
+DIRECTED_C = {
+    # displacements around the disp8 / disp32 switch through a pointer parameter; everything the stores can hit is a
+    # global whose final bytes are observed
+    "disp": ("""
+long long pad0[20] = {0};
+struct big { long long a[16]; long long tail; long long after[3]; };
+struct big gs = {{1,2,3,4,5,6,7,8,9,10,11,12,13,14,15,16}, 17, {18,19,20}};
+long long pad1[4] = {0};
+unsigned char bytes[400] = {0};
+long long touch(struct big *p, long long v) { p->tail = v; p->a[15] = v + 1; p->after[0] = v + 2; return p->tail * 3 + p->a[15] + p->after[0]; }
+int poke(unsigned char *c, int v) { c[-129] = v + 1; c[-128] = v + 2; c[-127] = v + 3; c[127] = v + 4; c[128] = v + 5; c[129] = v + 6; return c[-129] + c[-128] * 2 + c[-127] * 3 + c[127] * 5 + c[128] * 7 + c[129] * 11; }
+long long peek(long long *q) { return q[16] * 3 + q[-16] * 5 + q[15] + q[-17]; }
+long long f0(long long v, int w) { return touch(&gs, v) + gs.tail + poke(&bytes[200], w) + peek(&pad0[17] + 0) + peek(&gs.a[0] + 1); }
+""", ["pad0", "gs", "pad1", "bytes", "touch", "poke", "peek", "f0"], [[0, 0], [1, 1], [-5, 77], [123456789012, 250]], []),
+    # do-while / while loops whose exit test uses the old value of the loop variable, with an if inside the body
+    "latch": ("""
+int g1 = 0;
+int f0(int n, int s) {
+  int i = s & 3; int acc = 0; int k = n & 7;
+  do { if (i & 1) { acc += i * 3; } else { acc ^= i + 7; } g1 += 1; } while (i++ < n % 8);
+  while (k-- > 0) { if (k & 1) { acc += k; } else { acc -= 2 * k; } g1 += 2; }
+  return acc * 16 + i + k;
+}
+""", ["g1", "f0"], [[0, 0], [1, 1], [7, 2], [-3, 3], [13, 1], [6, 0]], []),
+    # calls through function pointers (table in initialised data naming functions that are also called directly), with
+    # values live across the indirect call and callees that call a gcc-compiled external function
+    "fnptr": ("""
+extern int ext_a(int);
+int h1(int x, int y, int z) { return x * y + z + ext_a(x); }
+int h2(int x, int y, int z) { return x - y * z + ext_a(y); }
+int (*tab[2])(int, int, int) = { h1, h2 };
+long long via(int x, int y) {
+  int (*f)(int, int, int) = tab[x & 1];
+  int a = x * 11 + y; int b = y * 13 + x; int c = x * 17 - y; int d = y * 19 - x; int e = x * 23 + 5; int g = y * 29 + 7;
+  int r = f(x, y, 3);
+  return a + r * b + c * 3 + d * 5 + e * 7 + g * 11 + (a ^ b ^ c ^ d ^ e ^ g);
+}
+long long f0(int x, int y) {
+  long long v = via(x, y);
+  int r2 = tab[(x + 1) & 1](y, x, 4);
+  return v + r2 + h1(y, x, 1) + h2(x, 2, y) + via(y, x);
+}
+""", ["ext_a", "h1", "h2", "tab", "via", "f0"], [[0, 0], [1, 1], [2, 5], [7, -3], [-100, 41]], ["ext_a"]),
+}
+
+
+def directed_c_programs(ctx, nvec):
+    out = []
+    for name, (src, names, vecs, externs) in DIRECTED_C.items():
+        ext = [{"name": x, "rets": [project_ir.limbs(v, 4) for v in (5, -2, 9, 30, 1, 0, 12, 3)]} for x in externs]
+        out.append({"key": "dirc.%s" % name, "csrc": src, "names": names, "fn": "f0", "vecs": vecs[:max(nvec, 4)], "ext": ext,
+                    "src": "engines/c04.py DIRECTED_C[%r]:\n%s" % (name, src)})
+    return out
+
+
 def prepare_c(ctx, programs, levels=LEVELS):
     """Per program: IR projection of c_to_ir(source) for the specification; per level the object api.cc produces
     (symbols prefixed so that many programs fit one gcc-linked executable); per distinct object a ppci-linked executable."""
@@ -176,6 +231,8 @@ def src_level(ctx, cases, ready):
     items = []
     for r in ready:
         p = r["p"]
+        if "prog" not in p:        # hand-written directed sources have no abstract program for Src.tla
+            continue
         f = [x for x in p["prog"]["funcs"] if x["n"] == p["fn"]][0]
         items.append({"key": p["key"], "prog": p["prog"], "f": f, "vecs": r["vecs"], "ext": p["ext"], "kind": "random",
                       "src": p["csrc"]})
@@ -240,8 +297,10 @@ class Engine:
         nvec = 6 if thorough else 4
         if only and only.startswith("c") and only[1:].isdigit():
             programs = c_programs(ctx, 0, nvec, seeds=[int(only[1:])])     # replay: rebuild that program from its seed
+        elif only:
+            programs = [p for p in directed_c_programs(ctx, nvec) if p["key"] == only]
         else:
-            programs = c_programs(ctx, 80 if thorough else 14, nvec)
+            programs = directed_c_programs(ctx, nvec) + c_programs(ctx, 80 if thorough else 12, nvec)
         holder = {}
 
         def post(wd, ready, results):
@@ -253,3 +312,4 @@ class Engine:
 
         if (thorough or os.environ.get("C04_SRC_LEVEL") == "1") and ctx.only is None:
             src_level(ctx, cases, holder.get("ready", []))
+        c05.quick_exit()
